@@ -39,6 +39,12 @@ def check_states(env, acc, maxlen):
         for i in range(-len(o), len(o)):
             if s[i] != o[i]:
                 acc.violation("index", case, None)
+            try:                # a position given as a numpy integer is the same position
+                if s[np.int64(i)] != o[i] or s[np.int32(i)] != o[i]:
+                    acc.violation("index", {**case, "index_type": "numpy integer"}, None)
+            except Exception as e:  # noqa: BLE001
+                acc.violation("index_numpy_integer_refused", {**case, "index": i}, {"error": repr(e)})
+                break
         for label, setter in (("s", lambda: setattr(s, "s", [1])), ("n_modes", lambda: setattr(s, "n_modes", 3)),
                               ("item", lambda: s.__setitem__(0, 1))):
             try:
@@ -143,6 +149,11 @@ def check_annotated(env, acc, max_photons):
             acc.violation("counts_inconsistent", case, None)
         h0 = hash(x)
         snapshot = [sorted(a0), sorted(a1)]
+        try:
+            if x[np.int64(1)] != sorted(a1) or x[np.int32(0)] != sorted(a0):
+                acc.violation("index", {**case, "index_type": "numpy integer"}, None)
+        except Exception as e:  # noqa: BLE001
+            acc.violation("index_numpy_integer_refused", case, {"error": repr(e)})
         g = x[0]; g.append(99)                       # value handed out by integer indexing
         if x.s != snapshot or hash(x) != h0 or x.n_photons != len(a0) + len(a1):
             acc.violation("value_handed_out_aliases_state", {**case, "via": "__getitem__(int)"}, None)
